@@ -9,7 +9,7 @@ fn build() -> Vec<Box<dyn Property>> {
         let mut v: Vec<Box<dyn Property>> = vec![];
         for id in ["C10", "C11", "C12", "C13"] {
             for s in stages(id) {
-                if !["exhaustive", "all-indices", "wide"].contains(&s.prop.stage()) {
+                if vcore::props::registry::fuzzable(&s) {
                     v.push(s.prop);
                 }
             }
